@@ -121,11 +121,16 @@ class ComputationCache:
             self.invalidate_cache()
             # Compute those values in which we are interested.
             comp(only)
-            # Mark individual as no longer changed.
-            self._chromosome.changed = False
-        elif len(cache) != len(funcs):
+            if only is not None or funcs:
+                # Mark individual as no longer changed. An aggregate query without any
+                # registered function computes nothing, so the chromosome stays changed.
+                self._chromosome.changed = False
+        elif (only is not None and only not in cache) or (
+            only is None and any(func not in cache for func in funcs)
+        ):
             # The individual has not changed, but not all values are cached.
-            # So we might have to compute the missing ones.
+            # So we might have to compute the missing ones. The cache may also hold
+            # values of functions that are not registered, so sizes cannot be compared.
             comp(only)
 
     def _compute_fitness(self, only: FitnessFunction | None = None):
@@ -184,7 +189,7 @@ class ComputationCache:
             self._fitness_cache,
             self._fitness_functions,
         )
-        return sum(self._fitness_cache.values())
+        return sum(self._fitness_cache[func] for func in self._fitness_functions)
 
     def get_fitness_for(self, fitness_function: FitnessFunction) -> float:
         """Returns the fitness values of a specific fitness function.
@@ -240,7 +245,7 @@ class ComputationCache:
             self._coverage_cache,
             self._coverage_functions,
         )
-        return statistics.mean(self._coverage_cache.values())
+        return statistics.mean(self._coverage_cache[func] for func in self._coverage_functions)
 
     def get_coverage_for(self, coverage_function: CoverageFunction) -> float:
         """Provides the coverage value for a certain coverage function.
